@@ -105,7 +105,8 @@ Definition pstep (g : pgraph) (s : pstate) (ev : event) : option pstate :=
   | ESend t e =>
       match phase_of s t with
       | Sending k =>
-          if Nat.eqb (nth k (out_edges g t) (length (pg_edges g))) e && receiver_alive g s e
+          if Nat.ltb e (length (pg_edges g)) && Nat.eqb (nth k (out_edges g t) (length (pg_edges g))) e
+             && receiver_alive g s e
           then Some (mk_pstate (set_nth (ps_phase s) t (Sending (S k))) (set_nth (ps_sent s) e true)
                                (ps_recvd s) (ps_main s))
           else None
